@@ -122,6 +122,10 @@ impl DerivesRegistry {
             // The collected_type_ids contain the id of the type itself and all ids of its fields:
             let mut collected_type_ids: HashSet<u32> = HashSet::new();
             collect_type_ids(ty.id, types, &mut collected_type_ids);
+            #[cfg(feature = "verif-hooks")]
+            for reached in collected_type_ids.iter() {
+                crate::verif_hooks::emit("derives:reach", ty.id, *reached, 0);
+            }
 
             // We collect the derives for each type id in the add_derives_for_id HashMap.
             for id in collected_type_ids {
